@@ -58,7 +58,7 @@ type Burst struct {
 }
 
 type Label struct {
-	K string `json:"k"` // api msg cancel hret close end chunk chunkerr sprog
+	K string `json:"k"` // api msg cancel hret close end chunk chunkerr sprog stall unstall
 	O int    `json:"o"` // op number (api, cancel, close, chunk*)
 	// api
 	Op         string         `json:"op,omitempty"` // subscribe unsubscribe register unregister publish call callprog
@@ -106,6 +106,7 @@ type Val struct {
 	Ty  string         `json:"ty"` // nil bool int uint goint float str bytes list dict map payload nilpayload id
 	S   string         `json:"s,omitempty"`
 	I   int64          `json:"i,omitempty"`
+	U   uint64         `json:"u,omitempty"` // uint values above MaxInt64
 	F   float64        `json:"f,omitempty"`
 	B   bool           `json:"b,omitempty"`
 	L   []Val          `json:"l,omitempty"`
@@ -133,6 +134,9 @@ func (v Val) goval() any {
 	case "int":
 		return v.I
 	case "uint":
+		if v.U != 0 {
+			return v.U
+		}
 		return uint64(v.I)
 	case "goint":
 		return int(v.I)
@@ -256,6 +260,8 @@ type driver struct {
 	burst  int
 	ops    map[int]*opState
 	quit   chan struct{}
+	stall     chan struct{} // non-nil while the router end does not read
+	stallKick chan struct{}
 	rel    map[int64]chan Label // invocation request id -> release channel
 	ended  bool
 	closeN int
@@ -317,15 +323,47 @@ func (d *driver) welcome() *wamp.Welcome {
 // sends and learns which request id belongs to which op.
 func (d *driver) drain(first chan<- wamp.Message) {
 	n := 0
-	for m := range d.rp.Recv() {
-		if n == 0 {
-			n++
-			first <- m
+	recv := d.rp.Recv()
+	for {
+		// label "stall": the router end stops taking what the client sends
+		// (a session handler that is busy, a transport writer that has gone)
+		d.mu.Lock()
+		st := d.stall
+		d.mu.Unlock()
+		if st != nil {
+			<-st
 			continue
 		}
-		d.record(m)
+		select {
+		case m, ok := <-recv:
+			if !ok {
+				d.log(Obs{E: "cclosed"})
+				return
+			}
+			if n == 0 {
+				n++
+				first <- m
+				continue
+			}
+			d.record(m)
+		case <-d.stallKick:
+		}
 	}
-	d.log(Obs{E: "cclosed"})
+}
+
+func (d *driver) setStall(on bool) {
+	d.mu.Lock()
+	defer d.mu.Unlock()
+	if on && d.stall == nil {
+		d.stall = make(chan struct{})
+		select {
+		case d.stallKick <- struct{}{}:
+		default:
+		}
+	} else if !on && d.stall != nil {
+		close(d.stall)
+		d.stall = nil
+	}
 }
 
 func xop(opts wamp.Dict) int {
@@ -907,6 +945,10 @@ func (d *driver) exec(l Label) {
 		d.startClose(l.O)
 	case "end":
 		d.end()
+	case "stall":
+		d.setStall(true)
+	case "unstall":
+		d.setStall(false)
 	default:
 		panic("harness: unknown label kind " + l.K)
 	}
@@ -983,7 +1025,7 @@ func topFrames(stacks []string) string {
 func runSchedule(t *testing.T, s *Sched, idx int) *Result {
 	res := &Result{ID: s.ID, Idx: idx, Status: "ok", Procs: runtime.GOMAXPROCS(0)}
 	d := &driver{t: t, s: s, ops: map[int]*opState{}, quit: make(chan struct{}), rel: map[int64]chan Label{},
-		lastSub: map[int][]int64{}, lastReg: map[int][]int64{}, t0: time.Now(), burst: -1, doneCh: make(chan struct{})}
+		lastSub: map[int][]int64{}, lastReg: map[int][]int64{}, stallKick: make(chan struct{}, 1), t0: time.Now(), burst: -1, doneCh: make(chan struct{})}
 	cp, rp := transport.LinkedPeers()
 	d.rp = rp
 	first := make(chan wamp.Message, 1)
@@ -1155,6 +1197,11 @@ func runSchedule(t *testing.T, s *Sched, idx int) *Result {
 		res.Status = "leak"
 		res.Why = topFrames(left)
 		res.Stacks = strings.Join(left, "\n\n")
+	}
+	if res.Status == "ok" {
+		// let the router end drain what is left so that its reader can finish
+		d.setStall(false)
+		synctest.Wait()
 	}
 	d.mu.Lock()
 	res.Obs = append([]Obs(nil), d.obs...)
